@@ -1,6 +1,10 @@
 package rules
 
-import "verif/checker/internal/core"
+import (
+	"strings"
+
+	"verif/checker/internal/core"
+)
 
 func init() {
 	register(&Prop{
@@ -20,7 +24,9 @@ func init() {
 	})
 	register(&Prop{
 		ID:    "C20",
-		Rules: []*Rule{rGrpcFlow, rCodec},
+		Rules: []*Rule{rGrpcFlow, {Name: "R-CODEC", Doc: rCodec.Doc + " (restricted to the gRPC code wrapper and the gRPC status types)", Run: func(c *core.Ctx) {
+			runCodec(c, func(cp *codecPair) bool { return strings.Contains(cp.Name, "extgrpc") || strings.Contains(cp.Name, "status.") })
+		}}},
 		Explain: "Decides the value flow through both interceptors (which value is inspected, encoded, returned on each edge) and slot agreement for withGrpcCode. NOT decided: equality with the direct EncodeError/DecodeError path (protobuf Any round trip and the gRPC runtime are outside the analysis).",
 		Trusted: []string{"go/ssa", "gogo/status, grpc"},
 	})
@@ -105,7 +111,7 @@ func init() {
 	})
 	register(&Prop{
 		ID:    "C13",
-		Rules: []*Rule{rWalkMulti, rWrapDual, rTreeRec, rOpaque, {Name: "R-LOOP-EXITS", Doc: rLoopExits.Doc, Run: func(c *core.Ctx) { runLoopExits(c, map[string]bool{"markers.Is": true, "markers.IsAny": true, "report.visitAllMulti": true}) }}},
+		Rules: []*Rule{rWalkMulti, rTreeRec, rOpaque, {Name: "R-LOOP-EXITS", Doc: rLoopExits.Doc, Run: func(c *core.Ctx) { runLoopExits(c, map[string]bool{"markers.Is": true, "markers.IsAny": true, "report.visitAllMulti": true}) }}},
 		Explain: "Decides that every tree walker (Is, IsAny, As, formatter, report visitor, encoder) applies itself to each branch of every chain node's UnwrapMulti in forward order, and that multi-cause types are leaves for Unwrap/UnwrapOnce. " +
 			"NOT decided: 'exactly when' (no false positives of the search), Join dropping nils / nil result, Error() = newline-joined branch texts.",
 		Trusted: []string{"go/ssa"},
@@ -136,7 +142,7 @@ func init() {
 	})
 	register(&Prop{
 		ID:    "C10",
-		Rules: []*Rule{rNil, rShape, rWrapDual},
+		Rules: []*Rule{rNil, rShape, rWrapDual, rForward},
 		Explain: "Decides the nil clauses of the property for every exported constructor on every path (nilness abstract interpretation, no execution). " +
 			"NOT decided: equality of Error() strings with the compositional model, 'Join of only nils = nil' (a count over runtime arguments).",
 		Trusted: []string{"go/ssa", "nilness lattice with branch refinement; unknown callees are Top"},
